@@ -2,6 +2,7 @@ package main
 
 import (
 	"fmt"
+	"strings"
 	"go/ast"
 	"go/constant"
 	"go/token"
@@ -53,9 +54,10 @@ func (a linForm) add(b linForm, k int64) linForm {
 func (a linForm) scale(k int64) linForm { return linForm{co: map[string]int64{}}.add(a, k) }
 
 type linProver struct {
-	names map[ssa.Value]string
-	lens  map[string]bool
-	n     int
+	names  map[ssa.Value]string
+	lens   map[string]bool
+	nonneg map[string]bool // range indexes: phi(-1, i) + 1
+	n      int
 }
 
 func (p *linProver) varOf(v ssa.Value) string {
@@ -87,6 +89,30 @@ func (p *linProver) form(v ssa.Value, depth int) linForm {
 			}
 		}
 	case *ssa.BinOp:
+		// the index of a range loop: phi(-1, this) + 1 - never negative
+		if x.Op == token.ADD {
+			if phi, isPhi := x.X.(*ssa.Phi); isPhi && len(phi.Edges) >= 2 {
+				if c1, ok1 := constInt(x.Y); ok1 && c1 == 1 {
+					okInd := true
+					for _, e := range phi.Edges {
+						if e == ssa.Value(x) {
+							continue
+						}
+						if c, ok := constInt(e); !ok || c != -1 {
+							okInd = false
+						}
+					}
+					if okInd {
+						name := p.varOf(v)
+						if p.nonneg == nil {
+							p.nonneg = map[string]bool{}
+						}
+						p.nonneg[name] = true
+						return one(name)
+					}
+				}
+			}
+		}
 		switch x.Op {
 		case token.ADD:
 			return p.form(x.X, depth+1).add(p.form(x.Y, depth+1), 1)
@@ -114,6 +140,27 @@ func (p *linProver) form(v ssa.Value, depth int) linForm {
 }
 
 func (p *linProver) lenVar(x ssa.Value) string {
+	// two loads of the same field path (`for i := range m.List { m.List[i] }`) read the same slice when nothing in
+	// the function stores to that field (module code never edits the decoded / configuration objects it walks; the
+	// function itself is checked here)
+	if ld, ok := x.(*ssa.UnOp); ok && ld.Op == token.MUL && gFacts != nil {
+		if fa, isFA := ld.X.(*ssa.FieldAddr); isFA && ld.Parent() != nil {
+			fv := fieldVar(fa.X.Type(), fa.Field)
+			stored := false
+			for _, st := range gFacts.info(ld.Parent()).stores {
+				if fa2, ok2 := st.Addr.(*ssa.FieldAddr); ok2 && fieldVar(fa2.X.Type(), fa2.Field) == fv {
+					stored = true
+				}
+			}
+			if !stored {
+				if pth := gFacts.path(ld); pth != "" && !strings.Contains(pth, "rec@") {
+					s := "len(path:" + pth + ")"
+					p.lens[s] = true
+					return s
+				}
+			}
+		}
+	}
 	// len of a constant string is that constant; otherwise a non-negative variable tied to the SSA value
 	s := "len(" + p.varOf(x) + ")"
 	p.lens[s] = true
@@ -279,6 +326,10 @@ func (cx *Ctx) bceLinearProof(n ast.Node) (bool, string) {
 		case *types.Array:
 			return linForm{co: map[string]int64{}, c: tt.Len()}, true
 		case *types.Slice:
+			// make([]T, n): the length is n
+			if ms, isMS := x.(*ssa.MakeSlice); isMS {
+				return p.form(ms.Len, 0), true
+			}
 			return linForm{co: map[string]int64{p.lenVar(x): 1}}, true
 		case *types.Basic:
 			if tt.Info()&types.IsString != 0 {
@@ -338,6 +389,9 @@ func (cx *Ctx) bceLinearProof(n ast.Node) (bool, string) {
 	}
 	for lv := range p.lens {
 		facts = append(facts, linForm{co: map[string]int64{lv: -1}}) // -len <= 0
+	}
+	for nv := range p.nonneg {
+		facts = append(facts, linForm{co: map[string]int64{nv: -1}}) // -i <= 0
 	}
 	for gi, g := range goals {
 		// negation of g <= 0 over the integers: g >= 1, i.e. -g + 1 <= 0
